@@ -50,8 +50,38 @@ class Cx:
                     return t
         return None
 
+    def dispatch_shapes(self):
+        """{id(handler fn): shape} read off the per-trait dispatchers: `match ast.data { Data::Struct(_) => X::trait_meta_handler(..), .. }`"""
+        if getattr(self, '_dshapes', None) is not None:
+            return self._dshapes
+        from .syn import walk_json
+        out = {}
+        for fn in self.handler_fns():
+            fw = self.fw(fn)
+            for ev in fw.events:
+                if ev.kind == 'match' and es(ev.node['expr']).replace('&', '') == 'ast.data':
+                    for arm in ev.node['arms']:
+                        ps = pat_s(arm['pat'])
+                        shape = None
+                        for sh in ('Struct', 'Enum', 'Union'):
+                            if ps.startswith('Data::' + sh):
+                                shape = sh.lower()
+                        if shape is None:
+                            continue
+                        for x in walk_json(arm['body']):
+                            if isinstance(x, dict) and x.get('k') == 'Call' and x['func']['k'] == 'Path' and x['func']['path']['segs'][-1]['id'] == 'trait_meta_handler':
+                                for callee in self.crate.find_fn(fn.module, [s_['id'] for s_ in x['func']['path']['segs']], fn.self_ty):
+                                    if callee is not fn:
+                                        out.setdefault(id(callee), set()).add(shape)
+        self._dshapes = out
+        return out
+
     def shape_of_handler(self, fn):
-        """struct|enum|union|top: from the Data:: pattern the handler destructures (not from its name)."""
+        """struct|enum|union|top: from the trait's dispatcher (which Data:: arm calls this handler); else from the Data:: pattern the
+        handler destructures (not from its name)."""
+        ds = self.dispatch_shapes().get(id(fn))
+        if ds and len(ds) == 1:
+            return next(iter(ds))
         fw = self.fw(fn)
         shapes = set()
         for ev in fw.events:
